@@ -103,7 +103,7 @@ fn sched_case(level: u8, via_tm: bool) -> BoxedStrategy<Case> {
 
 fn hop() -> BoxedStrategy<HOp> {
     prop_oneof![
-        2 => (2u8..5).prop_map(HOp::NewManager),
+        2 => (0u8..5).prop_map(HOp::NewManager),
         4 => any::<u16>().prop_map(HOp::AcqR),
         3 => any::<u16>().prop_map(HOp::AcqW),
         3 => any::<u16>().prop_map(HOp::Return),
